@@ -3,11 +3,12 @@ import asyncio
 from fractions import Fraction
 
 from engine.harness import Harness
+from engine.vtime import real_timedelta
 from harness.common import T0, SEC, run_async
 from harness.history import ADAPTERS
 
 
-def h15(S, backend="mem", backlog=3, steps=3, window=None, foreign=True):
+def h15(S, backend="mem", backlog=3, steps=3, window=None, foreign=True, retried_first=True):
     from repid.data._key import RoutingKey
     import repid.data._parameters as P
 
@@ -30,21 +31,24 @@ def h15(S, backend="mem", backlog=3, steps=3, window=None, foreign=True):
             A.cons["NORMAL"].PREFETCH_AMOUNT = window
         nid = 0
 
-        async def enqueue(own):
+        async def enqueue(own, past_due=False):
             nonlocal nid
             i = f"m{nid}"
             nid += 1
             key = RoutingKey(topic="job" if own else "other", queue="default", id_=i)
-            await A.broker.enqueue(key, "p", P.Parameters(timestamp=P.datetime.now()))
-            info[i] = {"since": tick(), "fresh": True, "own": own, "place": "waiting"}
+            now = P.datetime.now()
+            delay = P.DelayProperties(next_execution_time=now - real_timedelta(seconds=5)) if past_due else P.DelayProperties()
+            await A.broker.enqueue(key, "p", P.Parameters(timestamp=now, delay=delay))
+            # a message carrying a (past) due time sits in the delayed category until its first promotion:
+            # it takes part in the FIFO order only once it has been returned
+            info[i] = {"since": tick(), "fresh": True, "own": own, "place": "waiting", "delayed_origin": past_due}
             return i
 
         for n in range(backlog):
             own = (not foreign) or S.flag(f"own{n}")
-            await enqueue(own)
-            trace.append(("pre", "own" if own else "foreign"))
-        if backend == "rabbit":
-            await asyncio.sleep(Fraction(1, 2))
+            past = own and n == 0 and retried_first and S.flag("first_carries_past_due_time")
+            await enqueue(own, past)
+            trace.append(("pre", ("own" if own else "foreign") + ("+past-due" if past else "")))
         for step in range(steps):
             held = [i for i, v in info.items() if v["place"] == "held"]
             menu = [("enqueue", None), ("consume", None)] + [("reject", h) for h in held] + [("ack", h) for h in held[:1]]
@@ -64,7 +68,8 @@ def h15(S, backend="mem", backlog=3, steps=3, window=None, foreign=True):
                 if r not in waiting:
                     return
                 if info[r]["fresh"]:
-                    older = [x for x in waiting if x != r and info[x]["since"] < info[r]["since"]]
+                    older = [x for x in waiting if x != r and info[x]["since"] < info[r]["since"]
+                             and not (info[x]["fresh"] and info[x]["delayed_origin"])]
                     S.check("fifo-not-overtaken", not older,
                             info=f"{trace}: {r} delivered while older {older} still waiting")
                 else:
@@ -76,8 +81,6 @@ def h15(S, backend="mem", backlog=3, steps=3, window=None, foreign=True):
                 info[arg].update(place="waiting", fresh=False, since=tick())
                 if hasattr(A, "settled"):
                     A.settled(arg)
-                if backend == "rabbit":
-                    await asyncio.sleep(Fraction(1, 2))
             elif op == "ack":
                 key = RoutingKey(topic="job", queue="default", id_=arg)
                 await A.broker.ack(key)
@@ -98,7 +101,8 @@ def h15(S, backend="mem", backlog=3, steps=3, window=None, foreign=True):
                 S.check("delivered-own-waiting-message", False, info=f"{trace}: drain got {r}, waiting own {waiting}")
                 break
             if info[r]["fresh"]:
-                older = [x for x in waiting if x != r and info[x]["since"] < info[r]["since"]]
+                older = [x for x in waiting if x != r and info[x]["since"] < info[r]["since"]
+                         and not (info[x]["fresh"] and info[x]["delayed_origin"])]
                 S.check("fifo-not-overtaken", not older, info=f"{trace}: drain: {r} delivered while older {older} still waiting")
             info[r]["place"] = "held"
         S.cover("drained")
@@ -115,9 +119,9 @@ def _mk(backend, **kw):
 
 HARNESSES = [
     Harness(name="H15-mem", scenario=_mk("mem"), workers=16, budget_s=900,
-            params={"quick": {"backlog": 3, "steps": 3}, "thorough": {"backlog": 4, "steps": 4}},
-            bounds={"initial backlog": "3 quick / 4 thorough messages, each own-topic or foreign-topic (symbolic flags)",
-                    "then": "3 / 4 operations from {enqueue own, consume, reject a held message, ack}, then drain"},
+            params={"quick": {"backlog": 2, "steps": 4}, "thorough": {"backlog": 3, "steps": 5}},
+            bounds={"initial backlog": "2 quick / 3 thorough messages, each own-topic or foreign-topic (symbolic flags); the first may carry a past due time (a retried/rescheduled message)",
+                    "then": "4 / 5 operations from {enqueue own, consume, reject a held message, ack}, then drain"},
             functions=["connections/in_memory/consumer.py:_InMemoryConsumer.consume"], covers=["consumed", "drained", "returned-message-redelivered"]),
     Harness(name="H15-redis-small-window", scenario=_mk("redis"), workers=16, budget_s=900,
             params={"quick": {"backlog": 4, "steps": 2, "window": 2}, "thorough": {"backlog": 5, "steps": 3, "window": 3}},
@@ -130,8 +134,8 @@ HARNESSES = [
             bounds={"fetch window": "the real PREFETCH_AMOUNT (10)", "initial backlog": "12 / 13 own messages", "then": "2 / 3 operations, then drain"},
             covers=["consumed", "drained"]),
     Harness(name="H15-rabbit", scenario=_mk("rabbit"), workers=16, budget_s=900,
-            params={"quick": {"backlog": 3, "steps": 3, "foreign": False}, "thorough": {"backlog": 4, "steps": 3, "foreign": False}},
-            bounds={"initial backlog": "3 / 4 own messages", "then": "3 operations, then drain"},
+            params={"quick": {"backlog": 2, "steps": 4, "foreign": False, "retried_first": False}, "thorough": {"backlog": 3, "steps": 5, "foreign": False, "retried_first": False}},
+            bounds={"initial backlog": "2 / 3 own messages", "then": "4 / 5 operations, then drain"},
             covers=["consumed", "drained"],
             stubs=["fake AMQP server: FIFO queues, requeue to original position; server-side ordering is part of the stub, so this only checks that the client keeps the order it is given"],
             outside=["RabbitMQ server ordering guarantees", "foreign topics on RabbitMQ (reject+requeue loop timing)"]),
